@@ -1405,10 +1405,13 @@ def log_child_histories(history):
         log_child_histories(child_history)
 
 
-def info_for_single_file(root_path, verbose, single_file):
+def info_for_single_file(root_path, verbose, single_file, shown_paths=None):
     """
     ROOT_PATH: the root path to use for the asc mhl history (optional)
     """
+    # the former names of a renamed file are shown once each (a file can have been renamed back and forth)
+    shown_paths = set() if shown_paths is None else shown_paths
+    shown_paths.update(os.path.abspath(path) for path in single_file)
 
     logger.verbose_logging = verbose
 
@@ -1446,9 +1449,9 @@ def info_for_single_file(root_path, verbose, single_file):
                         logger.info(
                             " In previous generations the file was named: {}\n\n".format(media_hash.previous_path)
                         )
-                        info_for_single_file(
-                            root_path, verbose, [os.path.join(history.get_root_path(), media_hash.previous_path)]
-                        )
+                        previous_path = os.path.join(history.get_root_path(), media_hash.previous_path)
+                        if os.path.abspath(previous_path) not in shown_paths:
+                            info_for_single_file(root_path, verbose, [previous_path], shown_paths)
                 else:
                     logger.info(
                         f"  Generation {hash_list.generation_number} ({hash_list.creator_info.creation_date})"
